@@ -34,10 +34,13 @@ CONSTANTS Sigma,      \* set of one-character strings the inputs are drawn from
           Pieces,     \* alternatively: set of strings-as-character-sequences; inputs = concatenations of
           MaxPieces,  \*   at most MaxPieces pieces
           Given,      \* alternatively (when non-empty): an explicit set of input texts (character sequences)
-          Keywords, Booleans, Constants   \* sets of strings
+          Keywords, Booleans, Constants,  \* sets of strings (predicate level)
+          PropMode,     \* BOOLEAN: the text is a property (TRUE) or a predicate / expression (FALSE)
+          PropKeywords  \* set of strings: the keywords of the property level
 
-VARIABLES text, pos, toks, greedy
-vars == <<text, pos, toks, greedy>>
+VARIABLES text, pos, toks, greedy,
+          depth       \* brace nesting: in a property, everything inside { } is lexed at the predicate level
+vars == <<text, pos, toks, greedy, depth>>
 
 Lower  == {"a","b","c","d","e","f","g","h","i","j","k","l","m","n","o","p","q","r","s","t","u","v","w","x","y","z"}
 Upper  == {"A","B","C","D","E","F","G","H","I","J","K","L","M","N","O","P","Q","R","S","T","U","V","W","X","Y","Z"}
@@ -90,12 +93,49 @@ OpEnd(s) == IF Len(s) >= 2 /\ <<s[1], s[2]>> \in Op2 THEN 2
             ELSE IF s # <<>> /\ s[1] \in Op1 THEN 1 ELSE 0
 
 Max2(a, b) == IF a >= b THEN a ELSE b
-Longest(s) == Max2(Max2(WordEnd(s), VarEnd(s)), Max2(Max2(NumEnd(s), StrEnd(s)), OpEnd(s)))
+LongestPred(s) == Max2(Max2(WordEnd(s), VarEnd(s)), Max2(Max2(NumEnd(s), StrEnd(s)), OpEnd(s)))
+
+(***************************************************************************)
+(* Property level (outside braces).  CHANNEL_NAME =                         *)
+(*   [/~]? LETTER [0-9a-zA-Z_]* ( "/" LETTER [0-9a-zA-Z_]* )*               *)
+(* A channel name that merely BEGINS with a keyword (nothing, no_go, and    *)
+(* also no/go, after/x: the maximal channel name is not the keyword) is one *)
+(* name.  What a word is depends on the token before it - the only context  *)
+(* the property level needs: after `as` comes an alias (CNAME), after a     *)
+(* number a time unit.                                                      *)
+(***************************************************************************)
+Letters == Lower \cup Upper
+RECURSIVE ChanSegs(_, _)
+\* s[i] is the first character of a segment (must be a letter): end of the longest run of segments
+ChanSegs(s, i) ==
+  IF i <= Len(s) /\ s[i] \in Letters
+  THEN LET e == RunEnd(s, i + 1, WordChars) IN
+       IF e + 2 <= Len(s) /\ s[e + 1] = "/" /\ s[e + 2] \in Letters THEN ChanSegs(s, e + 2) ELSE e
+  ELSE 0
+ChanEnd(s) == IF s = <<>> THEN 0
+              ELSE IF s[1] \in {"/", "~"} THEN ChanSegs(s, 2) ELSE ChanSegs(s, 1)
+OpProp == {"(", ")", ":", "{", "}"}
+OpPropEnd(s) == IF s # <<>> /\ s[1] \in OpProp THEN 1 ELSE 0
+PrevIs(cls, str) == toks # <<>> /\ toks[Len(toks)].c = cls /\ (str = "" \/ toks[Len(toks)].s = str)
+LongestProp(s) == IF PrevIs("KW", "as") THEN WordEnd(s)
+                  ELSE Max2(Max2(ChanEnd(s), WordEnd(s)), Max2(NumEnd(s), OpPropEnd(s)))
+
+AtPropLevel == PropMode /\ depth = 0
+Longest(s) == IF AtPropLevel THEN LongestProp(s) ELSE LongestPred(s)
 
 RECURSIVE Join(_)
 Join(s) == IF s = <<>> THEN "" ELSE s[1] \o Join(Tail(s))
 
-Class(w) ==
+ClassProp(w) ==
+  IF NumEnd(w) = Len(w) THEN "NUM"
+  ELSE IF OpPropEnd(w) = Len(w) THEN "OP"
+  ELSE LET str == Join(w) IN
+       IF PrevIs("KW", "as") THEN "NAME"
+       ELSE IF str \in PropKeywords THEN "KW"
+       ELSE IF PrevIs("NUM", "") /\ str \in {"s", "ms"} THEN "UNIT"
+       ELSE IF ChanEnd(w) = Len(w) THEN "CHAN" ELSE "NAME"
+
+ClassPred(w) ==
   IF WordEnd(w) = Len(w)
   THEN LET str == Join(w) IN
        IF str \in Keywords THEN "KW" ELSE IF str \in Booleans THEN "BOOL"
@@ -104,6 +144,8 @@ Class(w) ==
   ELSE IF NumEnd(w) = Len(w) THEN "NUM"
   ELSE IF StrEnd(w) = Len(w) THEN "STR"
   ELSE "OP"
+
+Class(w) == IF AtPropLevel THEN ClassProp(w) ELSE ClassPred(w)
 
 (***************************************************************************)
 (* The machine                                                              *)
@@ -115,20 +157,21 @@ Inputs == IF Given # {} THEN Given ELSE IF Pieces = {} THEN UNION {[1..n -> Sigm
 
 Rest == SubSeq(text, pos, Len(text))
 
-Init == text \in Inputs /\ pos = 1 /\ toks = <<>> /\ greedy = TRUE
+Init == text \in Inputs /\ pos = 1 /\ toks = <<>> /\ greedy = TRUE /\ depth = 0
 
 SkipWS == /\ pos <= Len(text) /\ text[pos] \in WS
-          /\ pos' = pos + 1 /\ UNCHANGED <<text, toks, greedy>>
+          /\ pos' = pos + 1 /\ UNCHANGED <<text, toks, greedy, depth>>
 
 Emit(k, g) == LET w == SubSeq(text, pos, pos + k - 1) IN
               /\ toks' = Append(toks, [c |-> Class(w), s |-> Join(w), at |-> pos, n |-> k])
+              /\ depth' = (IF k = 1 /\ w[1] = "{" THEN depth + 1 ELSE IF k = 1 /\ w[1] = "}" /\ depth > 0 THEN depth - 1 ELSE depth)
               /\ pos' = pos + k /\ greedy' = g /\ UNCHANGED text
 
 Munch == /\ pos <= Len(text) /\ text[pos] \notin WS
          /\ Longest(Rest) > 0
          /\ Emit(Longest(Rest), greedy)
 
-MunchShortOp == /\ pos <= Len(text) /\ OpEnd(Rest) = 2 /\ text[pos] \in Op1
+MunchShortOp == /\ pos <= Len(text) /\ ~AtPropLevel /\ OpEnd(Rest) = 2 /\ text[pos] \in Op1
                 /\ Emit(1, FALSE)
 
 Next == SkipWS \/ Munch \/ MunchShortOp
@@ -139,14 +182,15 @@ Stuck == pos <= Len(text) /\ text[pos] \notin WS /\ Longest(Rest) = 0
 
 \* a number directly followed by a word (`1and`, `2x`, `1.E`): whether such text lexes is not stated anywhere
 Adjacent == \E i \in 1..(Len(toks) - 1) :
-               /\ toks[i].c = "NUM" /\ toks[i + 1].c \in {"NAME", "KW", "BOOL", "CONST"}
+               /\ toks[i].c = "NUM" /\ toks[i + 1].c \in {"NAME", "KW", "BOOL", "CONST", "CHAN"}
                /\ toks[i + 1].at = toks[i].at + toks[i].n
 
 (***************************************************************************)
 (* Model-level theorems (checked by TLC as invariants of the machine)       *)
 (***************************************************************************)
 TypeOK == /\ pos \in 1..(Len(text) + 1)
-          /\ \A i \in 1..Len(toks) : toks[i].c \in {"NAME", "KW", "BOOL", "CONST", "VAR", "NUM", "STR", "OP"}
+          /\ \A i \in 1..Len(toks) : toks[i].c \in {"NAME", "KW", "BOOL", "CONST", "VAR", "NUM", "STR", "OP", "CHAN", "UNIT"}
+          /\ depth >= 0
 
 \* tokens never overlap, never contain white space at their ends, and cover every non-blank character
 Covering == AtEnd => \A j \in 1..Len(text) :
@@ -160,6 +204,8 @@ MaximalWords == greedy => \A i \in 1..Len(toks) :
                   e <= Len(text) =>
                      /\ (toks[i].c \in {"NAME", "KW", "BOOL", "CONST", "VAR"} => text[e] \notin WordChars)
                      /\ (toks[i].c = "NUM" => text[e] \notin Digits)
+                     /\ (toks[i].c = "CHAN" => text[e] \notin WordChars
+                                                /\ ~(text[e] = "/" /\ e + 1 <= Len(text) /\ text[e + 1] \in Letters))
 
 \* Emission (used with -workers 1): always TRUE
 EmitLex == /\ AtEnd  => PrintT(<<"L", ToJson([text |-> Join(text), toks |-> toks, greedy |-> greedy, adj |-> Adjacent])>>)
